@@ -26,6 +26,7 @@ type decision struct {
 	n        int
 	checked  bool
 	noAlt    bool     // branch: the other side is known infeasible
+	altOK    bool     // branch: the other side is known feasible (no re-check)
 	val      uint64   // dValue: current value
 	explored []uint64 // dValue: values already explored
 }
@@ -307,6 +308,9 @@ func (m *Machine) Branch(cond *smt.Term) bool {
 		if d.kind != dBranch {
 			panic(fmt.Sprintf("gosx: nondeterministic re-execution (expected branch at %d, have kind %d)", m.pos, d.kind))
 		}
+		if !d.checked && d.altOK {
+			d.checked = true
+		}
 		if !d.checked {
 			c := cond
 			if d.chosen == 1 {
@@ -335,7 +339,13 @@ func (m *Machine) Branch(cond *smt.Term) bool {
 		e.Stats.UnknownFeas++
 	}
 	if r != smt.Unsat {
-		e.trail = append(e.trail, decision{kind: dBranch, chosen: 0, n: 2, checked: true})
+		// decide now whether the other side is feasible, so that an
+		// infeasible alternative never costs a re-execution
+		r2 := m.query(m.C.Not(cond))
+		if r2 == smt.Unknown {
+			e.Stats.UnknownFeas++
+		}
+		e.trail = append(e.trail, decision{kind: dBranch, chosen: 0, n: 2, checked: true, noAlt: r2 == smt.Unsat, altOK: r2 != smt.Unsat})
 		m.pos++
 		m.assume(cond)
 		return true
